@@ -461,9 +461,34 @@ func (u *Unit) baseLoop(stmt ast.Stmt, n int) int {
 			}
 		}
 		if b < 0 {
-			return 1000 + n
+			// no recorded loop with this header: the k-th such loop of the new helpers stands for the k-th recorded
+			// loop that has no counterpart left, if it is the same kind of loop (the moved loop was edited on the way)
+			var rest []int
+			for i := range fb.Loops {
+				if u.loopUnmatched[i] {
+					same := false
+					for j := range fb.Loops {
+						if j != i && u.loopUnmatched[j] && fb.Loops[j] == fb.Loops[i] {
+							same = true
+						}
+					}
+					if !same {
+						rest = append(rest, i)
+					}
+				}
+			}
+			sort.Ints(rest)
+			k := u.loopForeignSeen
+			if occ == 0 {
+				u.loopForeignSeen++
+			}
+			isRange := func(h string) bool { return strings.Contains(h, " range ") }
+			if k >= len(rest) || isRange(fb.Loops[rest[k]]) != isRange(hdr) {
+				return 1000 + n
+			}
+			b = rest[k]
 		}
-		u.c.note("loop `%s` now lives in a helper executed inline: its recorded clauses are applied there (baseline bindings)", hdr)
+		u.c.note("loop `%s` now lives in a helper executed inline: the clauses recorded for `%s` are applied there (baseline bindings)", hdr, fb.Loops[b])
 	} else if len(fb.Loops) != len(u.loopStatic) {
 		ensureAlign()
 		b = u.loopAlign[c]
